@@ -16,6 +16,7 @@ abstract interpreter see one spelling of constructs that mean the same:
   a, b = x, y                           ->  a = x ; b = y            (when y does not mention a)
   for v in IT: acc = acc + E            ->  acc = acc + sum(E for v in IT)   (accumulation loop whose body is that one statement)
   for v in chain(A, B): BODY            ->  for v in A: BODY ; for v in B: BODY
+  f(A if C else B)   (as a statement)   ->  if C: f(A) else: f(B)
   return A if C else B                  ->  if C: return A ; return B   (a returned conditional becomes early returns, recursively)
   v = A if C else None                  ->  if C: v = A  else: v = None   (a conditional with a None arm is kept / made a statement)
   f(x, p2=y)                            ->  f(x, y)                  (second pass, needs all signatures: keywords of calls to functions
@@ -374,6 +375,18 @@ class Normalizer(ast.NodeTransformer):
             return [st]
 
         stmts = [y for st in stmts for y in split_or0(st)]
+        # f(A if C else B) as a statement  ->  if C: f(A) else: f(B)
+        def split_call(st):
+            if isinstance(st, ast.Expr) and isinstance(st.value, ast.Call) and len(st.value.args) == 1 and not st.value.keywords and isinstance(st.value.args[0], ast.IfExp):
+                import copy as _c
+
+                c = st.value
+                a = ast.copy_location(ast.Expr(value=ast.copy_location(ast.Call(func=_c.deepcopy(c.func), args=[c.args[0].body], keywords=[]), c)), st)
+                b = ast.copy_location(ast.Expr(value=ast.copy_location(ast.Call(func=_c.deepcopy(c.func), args=[c.args[0].orelse], keywords=[]), c)), st)
+                return [ast.copy_location(ast.If(test=c.args[0].test, body=[a], orelse=[b]), st)]
+            return [st]
+
+        stmts = [y for st in stmts for y in split_call(st)]
         # for v in chain(A, B): BODY  ->  one loop per iterable
         unchained = []
         for st in stmts:
